@@ -179,14 +179,29 @@ class C30(Check):
                         fs.update_hash()
                     elif k == 10:
                         # hashing a path that does not exist
-                        ghost = klass(os.path.join(root, "d", "ghost.txt"))
+                        # ... for any reason a path can be missing: no such entry, no such
+                        # directory, a regular file where a directory is expected, a name the
+                        # filesystem cannot even hold
+                        kind = ch.choice(4, "missing-kind")
+                        if kind == 0:
+                            gpath = os.path.join(root, "d", "ghost.txt")
+                        elif kind == 1:
+                            gpath = os.path.join(root, "nodir", "deeper", "ghost.txt")
+                        elif kind == 2:
+                            plain = os.path.join(root, "plainfile")
+                            with open(plain, "w") as f:
+                                f.write("x")
+                            gpath = os.path.join(plain, "ghost.txt")
+                        else:
+                            gpath = os.path.join(root, "g" * 300 + ".txt")
+                        ghost = klass(gpath)
                         try:
                             h1 = ghost.hash
                             h2 = klass(ghost.path).hash
                             valid = ghost.is_valid()
                         except Exception as e:
                             violate("C30.missing_path_hash", f"raises-{type(e).__name__}",
-                                    {"error": repr(e)[:200]})
+                                    {"error": repr(e)[:200], "missing_kind": kind})
                             break
                         out.probe("missing_path_hashes")
                         if h1 != h2:
